@@ -92,7 +92,7 @@ func (g *SparseGraph) AddVertex(neighbours []int) {
 	}
 
 	g.Neighbourhoods = append(g.Neighbourhoods, tmp)
-	g.DegreeSequence = append(g.DegreeSequence, len(neighbours))
+	g.DegreeSequence = append(g.DegreeSequence, len(tmp))
 }
 
 //RemoveVertex removes the specified vertex. The index of a vertex u > v becomes u - 1 while the index of u < v is unchanged.
